@@ -26,7 +26,7 @@ impl Dist {
 #[derive(Clone, Copy, Debug, Serialize, Deserialize, PartialEq)]
 pub enum Corrupt { None, Amount, Index(u32), Flip(usize), Truncate, Extend, Other(usize), Reverse }
 #[derive(Clone, Debug, Serialize, Deserialize)]
-pub enum Step { Claim { tree: usize, k: usize, corrupt: Corrupt }, SetRoot { tree: usize } }
+pub enum Step { Claim { tree: usize, k: usize, corrupt: Corrupt }, SetRoot { tree: usize }, Advance { n: u32 } }
 #[derive(Clone, Debug, Serialize, Deserialize)]
 pub struct Cfg { pub sizes: std::vec::Vec<usize> }
 
@@ -57,6 +57,7 @@ impl Check for MerkleIndexed {
         let mut cur = 0usize;
         for _ in 0..(15 + rng.below(50)) {
             if rng.chance(4) { cur = 1 - cur; steps.push(Step::SetRoot { tree: cur }); continue; }
+            if rng.chance(8) { steps.push(Step::Advance { n: match rng.below(4) { 0 => 1 + rng.below(20) as u32, 1 => 4_000 + rng.below(30_000) as u32, 2 => 100_000 + rng.below(1_000_000) as u32, _ => 2_000_000 + rng.below(5_000_000) as u32 } }); continue; }
             let tree = if rng.chance(88) { cur } else { 1 - cur };
             let n = cfg.sizes[tree];
             let k = rng.below(n as u64) as usize;
@@ -66,7 +67,7 @@ impl Check for MerkleIndexed {
         (cfg, steps)
     }
     fn probes(&self, _prop: &str) -> std::vec::Vec<&'static str> {
-        vec!["probe.claim_against_other_root", "probe.root_changed"]
+        vec!["probe.claim_against_other_root", "probe.root_changed", "probe.claimed_flag_queried_after_long_time"]
     }
     fn dup_ok(&self, _s: &Step) -> bool {
         true
@@ -89,6 +90,7 @@ impl Check for MerkleIndexed {
         let mut claimed: std::collections::BTreeSet<u32> = Default::default();
         for (i, s) in steps.iter().enumerate() {
             match s {
+                Step::Advance { n } => { w.advance(*n); st.ledgers += *n as u64; st.hit("clock.advance"); if !claimed.is_empty() && *n > 600_000 { st.hit("probe.claimed_flag_queried_after_long_time"); } }
                 Step::SetRoot { tree } => { c.set_root(&BytesN::from_array(e, &trees[*tree].2)); cur = Some(*tree); st.hit("probe.root_changed"); }
                 Step::Claim { tree, k, corrupt } => {
                     let (leaves, hs, root, proofs) = &trees[*tree];
